@@ -11,20 +11,28 @@
 (*           MC_PeerInputGen; the driver must know the same class names).  *)
 (***************************************************************************)
 EXTENDS PeerInput, Json
-CONSTANTS N, NPE, K, ASIS, ALPHA, MAXLEN
+CONSTANTS N, NPE, K, ASIS, ALPHA, MAXLEN, GUARD
 
 VARIABLES nmsg, h
 
 mvars == <<vars, nmsg, h>>
 
-MCfg == [n |-> N, npe |-> NPE, maxmsg |-> 65536, asis |-> ASIS]
+MCfg == [n |-> N, npe |-> NPE, maxmsg |-> 65536, asis |-> ASIS, guard |-> GUARD]
 
 \* a reduced alphabet: one representative per behaviour class of the model (plus all queueable ones)
 Reduced == Queueable \cup {"keepalive", "oversize.4g", "trunc.have", "wronglen.have9", "ext.unknown",
                            "choke", "unchoke", "interested", "request.ok", "request.ovf", "cancel.ok",
                            "reject.allbad", "piece.unreq", "piece.oob", "ext.hs.ok", "ext.hs.negsize",
-                           "ext.meta.datajunk", "ext.meta.req0", "ext.pex.odd", "mut:flip:3:have.in0"}
-Alpha == IF ALPHA = "full" THEN Classes \cup {"mut:flip:3:have.in0"} ELSE Reduced
+                           "ext.meta.datajunk", "ext.meta.req0", "ext.pex.odd", "mut:flip:3:have.in0",
+                           "ext.pex.len.added.8", "ext.pex.rep.xaaa.a"}
+\* "full" = the hand-written alphabet plus representatives of the generated ut_pex families (their members differ only
+\* in Benign / the delivered lengths, not in any state change of the model)
+PexReps == {"ext.pex.len.added.8", "ext.pex.len.added.12", "ext.pex.len.dropped.64", "ext.pex.len.addedf.3",
+            "ext.pex.len.added6.18", "ext.pex.len.dropped6.7", "ext.pex.rep.xaaa.", "ext.pex.rep.aa.a", "ext.pex.rep.ax.xa"}
+ASSUME PexReps \subseteq PexFam
+Alpha == CASE ALPHA = "full" -> Core \cup PexReps \cup {"mut:flip:3:have.in0"}
+           [] ALPHA = "race" -> {"unchoke", "choke", "have.in0", "bitfield.full", "interested", "piece.unreq", "have.oob"}
+           [] OTHER -> Reduced
 
 MCInit == /\ \E st \in {"meta", "alloc", "verify", "down", "seed"} : InitWith(MCfg, st)
           /\ nmsg = 0 /\ h = << >>
@@ -43,6 +51,8 @@ MCNext ==
           \/ \E t2 \in {"down", "seed"} : Start(t2) /\ Note([pe |-> 0, cls |-> "@start"])
           \/ \E p \in Peers : Connect(p) /\ Note([pe |-> p, cls |-> "@connect"])
           \/ \E p \in Peers : Disconnect(p) /\ Note([pe |-> p, cls |-> "@disconnect"])
+          \/ \E p \in Peers : TimerFire(p) /\ Note([pe |-> p, cls |-> "@fire"])
+          \/ \E p \in Peers : SnubDeliver(p) /\ Note([pe |-> p, cls |-> "@snub"])
 
 MCSpec == MCInit /\ [][MCNext]_mvars
 
